@@ -29,7 +29,8 @@ def run(prop, gi, g, tier, known, do_replay):
         return out
     d = json.load(open(outjson))
     sel = g["select"]
-    obs = [o for o in d["obligations"] if any(o["name"].startswith(p) for p in sel)]
+    # obligations of this property, plus every "could not encode" report of the lemmas run for it (never silently dropped)
+    obs = [o for o in d["obligations"] if any(o["name"].startswith(p) for p in sel) or ".encode" in o["name"]]
     T = out["totals"]
     byname = collections.OrderedDict()
     for o in obs:
